@@ -183,7 +183,13 @@ func (V4) NewCfg(conn net.PacketConn, T time.Duration, tries int, cfg int) (Clie
 		opts = append(opts, nclient4.WithDebugLogger())
 	}
 	restore := quietStderr()
-	c, err := nclient4.NewWithConn(conn, HW, opts...)
+	var c *nclient4.Client
+	var err error
+	if cfg%NCfg == 2 { // the hardware address given through the option instead of the constructor argument
+		c, err = nclient4.NewWithConn(conn, nil, append(opts, nclient4.WithHWAddr(HW))...)
+	} else {
+		c, err = nclient4.NewWithConn(conn, HW, opts...)
+	}
 	restore()
 	if err != nil {
 		return nil, err
